@@ -553,17 +553,17 @@ def _drive(ctx, cname, dim, f, lo, hi, res, nbe, bounds, seq, pts, outs, judge_o
             p = pts[k]
             try:
                 v = cache(*p)
-            except ValueError as e:
-                ctx.check(False, "inside:%s:raises-ValueError" % cname,
-                          "ValueError for a point at least 3e-7 inside the caching area", monitor="inside",
-                          point=p, lo=lo, hi=hi, error=str(e)[:200])
-                continue
             except np.linalg.LinAlgError as e:
                 if skey is None:
                     raise
                 ctx.check(False, skey, "numpy.linalg.LinAlgError (%s) instead of a value for a point inside the caching area: the "
                           "constraint matrix of the cell cubic in the monomial basis of the normalised coordinates is numerically "
                           "singular" % str(e)[:80], monitor="inside", point=p, lo=lo, hi=hi, res=res)
+                continue
+            except ValueError as e:
+                ctx.check(False, "inside:%s:raises-ValueError" % cname,
+                          "ValueError for a point at least 3e-7 inside the caching area", monitor="inside",
+                          point=p, lo=lo, hi=hi, error=str(e)[:200])
                 continue
             ctx.mon("inside")
             got.setdefault(k, []).append(v)
